@@ -340,8 +340,8 @@ func spellings(w *wm.World) []edit {
 }
 
 func halves(p wm.NPPeer) (wm.NPPeer, wm.NPPeer, bool) {
-	if p.CIDR == "" {
-		return p, p, false
+	if p.CIDR == "" || strings.Contains(p.CIDR, ":") || strings.Contains(strings.Join(p.Except, ","), ":") {
+		return p, p, false // no ipBlock, or IPv6 parts
 	}
 	var a, b, c, d, n int
 	fmt.Sscanf(p.CIDR, "%d.%d.%d.%d/%d", &a, &b, &c, &d, &n)
